@@ -103,8 +103,8 @@ type Obs struct {
 	Counter int   `json:"counter,omitempty"`
 	// how the sessions with a failing / panicking process ended (for the record, not judged)
 	Ends []string `json:"ends,omitempty"`
-	Real   int      `json:"real"` // 0 not replayed, 1 completed + lock free, 2 fatal unlock, 3 lock not free (a constructor or the final probe blocked)
-	Note   string   `json:"note,omitempty"`
+	Real int      `json:"real"` // 0 not replayed, 1 completed + lock free, 2 fatal unlock, 3 lock not free (a constructor or the final probe blocked)
+	Note string   `json:"note,omitempty"`
 }
 
 // ---- parties ------------------------------------------------------------------------------------
